@@ -400,6 +400,57 @@ pub fn write_replay(id: &str, f: &Failure) -> PathBuf {
     path
 }
 
+// ---------------------------------------------------------------------------------------
+// cases that may kill the process (stack exhaustion, abort): a breadcrumb on disk while they run
+//
+// A panic is caught in-process. A stack overflow or an abort inside flipdot is not: the process dies and nothing can
+// be written any more. Checks therefore announce a *heavy* case (deep recursion potential: thousands of messages to one
+// object) in `out/inflight/` before running it and withdraw the announcement afterwards. If the process dies, `./check`
+// replays every announcement that is left in a fresh process; one that kills that process too is reported as the
+// violation, with the breadcrumb as the replay file.
+
+pub struct Inflight(Option<PathBuf>);
+
+impl Drop for Inflight {
+    fn drop(&mut self) {
+        if let Some(p) = self.0.take() {
+            let _ = std::fs::remove_file(p);
+        }
+    }
+}
+
+/// Announce a heavy case. `case` is only evaluated (serialised) here, so callers gate on their own cheap test first.
+pub fn inflight(id: &str, part: &str, case: impl FnOnce() -> Value) -> Inflight {
+    static NEXT: AtomicU64 = AtomicU64::new(0);
+    thread_local! {
+        static SLOT: u64 = NEXT.fetch_add(1, Ordering::Relaxed);
+    }
+    if std::env::var_os("VERIF_NO_INFLIGHT").is_some() {
+        return Inflight(None);
+    }
+    let dir = Path::new(&verif_dir()).join("out").join("inflight");
+    let _ = std::fs::create_dir_all(&dir);
+    let slot = SLOT.with(|s| *s);
+    let path = dir.join(format!("{id}-{}-{slot}.json", std::process::id()));
+    let body = json!({"property": id, "part": part, "case": case(), "message": "in flight when the process died"});
+    match std::fs::write(&path, serde_json::to_string(&body).unwrap_or_default()) {
+        Ok(()) => Inflight(Some(path)),
+        Err(_) => Inflight(None),
+    }
+}
+
+/// Remove breadcrumbs of earlier runs of this property (called once at start-up, not on --replay).
+pub fn clear_inflight(id: &str) {
+    let dir = Path::new(&verif_dir()).join("out").join("inflight");
+    if let Ok(rd) = std::fs::read_dir(dir) {
+        for e in rd.flatten() {
+            if e.file_name().to_string_lossy().starts_with(&format!("{id}-")) {
+                let _ = std::fs::remove_file(e.path());
+            }
+        }
+    }
+}
+
 fn load_known(id: &str) -> Vec<Known> {
     let path = Path::new(&verif_dir()).join("KNOWN_FINDINGS.txt");
     let text = std::fs::read_to_string(path).unwrap_or_default();
@@ -448,17 +499,65 @@ pub fn install_quiet_panic_hook() {
             .location()
             .map(|l| format!("{}:{}", l.file(), l.line()))
             .unwrap_or_default();
-        LAST_PANIC.with(|p| *p.borrow_mut() = Some(format!("{msg} @ {loc}")));
+        // (try_with: the hook may run while the thread's locals are being torn down)
+        let text = format!("{msg} @ {loc}");
+        if LAST_PANIC.try_with(|p| *p.borrow_mut() = Some(text.clone())).is_err() {
+            if let Ok(mut g) = LAST_PANIC_LATE.lock() {
+                *g = Some(text);
+            }
+        }
     }));
 }
+
+static LAST_PANIC_LATE: Mutex<Option<String>> = Mutex::new(None);
 
 /// Run `f`; Err(description) if it panicked.
 pub fn catch<T>(f: impl FnOnce() -> T) -> Result<T, String> {
     match panic::catch_unwind(AssertUnwindSafe(f)) {
         Ok(v) => Ok(v),
         Err(_) => Err(LAST_PANIC
-            .with(|p| p.borrow_mut().take())
+            .try_with(|p| p.borrow_mut().take())
+            .ok()
+            .flatten()
+            .or_else(|| LAST_PANIC_LATE.lock().ok().and_then(|mut g| g.take()))
             .unwrap_or_else(|| "panic".to_string())),
+    }
+}
+
+/// Run `probe` inside the destructor of a thread-local value while a thread shuts down. The thread first creates that
+/// value, then runs `warm` (which uses the library, so that any per-thread state of the library is created *after* the
+/// value and therefore destroyed *before* it), then exits. A library that works from a global context works here too;
+/// one that keeps per-thread state of its own finds it gone. Ok(()) = the probe ran and returned Ok.
+pub fn in_thread_teardown(
+    warm: impl FnOnce() + Send + 'static,
+    probe: impl FnOnce() -> Result<(), String> + Send + 'static,
+) -> Result<(), String> {
+    type Probe = Box<dyn FnOnce() -> Result<(), String> + Send>;
+    struct Guard(Option<(Probe, std::sync::mpsc::Sender<Result<(), String>>)>);
+    impl Drop for Guard {
+        fn drop(&mut self) {
+            if let Some((probe, tx)) = self.0.take() {
+                let r = match catch(probe) {
+                    Ok(r) => r,
+                    Err(p) => Err(format!("panic while the thread's locals were being destroyed: {p}")),
+                };
+                let _ = tx.send(r);
+            }
+        }
+    }
+    thread_local! {
+        static GUARD: std::cell::RefCell<Guard> = const { std::cell::RefCell::new(Guard(None)) };
+    }
+    let (tx, rx) = std::sync::mpsc::channel();
+    let probe: Probe = Box::new(probe);
+    let handle = std::thread::spawn(move || {
+        GUARD.with(|g| g.borrow_mut().0 = Some((probe, tx)));
+        warm();
+    });
+    let joined = handle.join();
+    match rx.recv_timeout(std::time::Duration::from_secs(20)) {
+        Ok(r) => r,
+        Err(_) => Err(format!("the probe inside the thread-local destructor never reported (thread join: {})", if joined.is_ok() { "ok" } else { "panicked" })),
     }
 }
 
